@@ -119,6 +119,11 @@ SPEC = {
     "Truck": dict(fam="Z6s", scalars={"wheels": "i", "cargo": "i"}, m2o={}, colls={}, delete="free", pk="int"),
     "NUser": dict(fam="Z7", scalars={"fullname": "s"}, m2o={}, colls={"addresses": (["NAddr"], "o2m")}, delete="free", pk="str", natural="username"),
     "NAddr": dict(fam="Z7", scalars={"note": "s"}, m2o={"user": (["NUser"], True)}, colls={}, delete="free", pk="str", natural="email"),
+    # Z9: two delete-orphan parent classes over one child, nullable FKs, one-directional:
+    # a Note may be an orphan of one of them and still be wanted in the database
+    "Draft": dict(fam="Z9", scalars={"title": "s"}, m2o={}, colls={"notes": (["Note"], "o2m_uni")}, delete="free", pk=None),
+    "Folder": dict(fam="Z9", scalars={"name": "s"}, m2o={}, colls={"notes": (["Note"], "o2m_uni")}, delete="free", pk=None),
+    "Note": dict(fam="Z9", scalars={"text": "s"}, m2o={}, colls={}, delete="free", pk=None),
     "Vertex": dict(fam="Z8", scalars={}, m2o={}, colls={}, delete="free", pk="int", composites=["start", "end"]),
 }
 FAMILIES = sorted({v["fam"] for v in SPEC.values()})
@@ -309,6 +314,25 @@ class Zoo:
             note = C(S(30))
             user = rel("NUser", back_populates="addresses", passive_updates=False)
 
+        class Draft(Base):
+            __tablename__ = "draft"
+            id = C(I, primary_key=True)
+            title = C(S(30))
+            notes = rel("Note", cascade="all, delete-orphan")
+
+        class Folder(Base):
+            __tablename__ = "folder"
+            id = C(I, primary_key=True)
+            name = C(S(30))
+            notes = rel("Note", cascade="all, delete-orphan")
+
+        class Note(Base):
+            __tablename__ = "note"
+            id = C(I, primary_key=True)
+            draft_id = C(FK("draft.id"))
+            folder_id = C(FK("folder.id"))
+            text = C(S(30))
+
         class Vertex(Base):
             __tablename__ = "vertex"
             id = C(I, primary_key=True)
@@ -322,7 +346,7 @@ class Zoo:
         self.cls = {
             c.__name__: c
             for c in (Parent, Child, Owner, Item, Node, NTag, NRef, NOwner, CycA, CycB, Left, Right, Art, Tag, ArtTag,
-                      Employee, Manager, Engineer, Vehicle, Car, Truck, NUser, NAddr, Vertex)
+                      Employee, Manager, Engineer, Vehicle, Car, Truck, NUser, NAddr, Vertex, Draft, Folder, Note)
         }
         reg.configure()
         self.mappers = {n: sa.inspect(c) for n, c in self.cls.items()}
@@ -333,12 +357,12 @@ class Zoo:
         # mapper event hooks (fault injection for C32); one permanent listener per zoo
         for name in ("before_insert", "after_insert", "before_update", "after_update", "before_delete", "after_delete"):
             for c in (Parent, Child, Owner, Item, Node, NTag, NRef, NOwner, CycA, CycB, Left, Right, Art, Tag, ArtTag,
-                      Employee, Vehicle, NUser, NAddr, Vertex):
+                      Employee, Vehicle, NUser, NAddr, Vertex, Draft, Folder, Note):
                 event.listen(c, name, self._mk_hook(name), propagate=True)
         self.on_reload = None   # callable(obj): an instance was loaded / refreshed / expired
         for name in ("load", "refresh", "expire"):
             for c in (Parent, Child, Owner, Item, Node, NTag, NRef, NOwner, CycA, CycB, Left, Right, Art, Tag, ArtTag,
-                      Employee, Vehicle, NUser, NAddr, Vertex):
+                      Employee, Vehicle, NUser, NAddr, Vertex, Draft, Folder, Note):
                 event.listen(c, name, self._mk_reload(), propagate=True)
         self._info = {}
 
@@ -463,6 +487,9 @@ class Rig:
         self.objs = []      # slot -> object (strong refs for the whole case)
         self._slot = {}     # id(obj) -> slot
         self.sp = []        # stack of nested SessionTransaction objects
+        self.pool = set()      # id(obj): built by the history but never put into a session yet
+        self.orphaned_outside = set()   # slots removed from a collection of a parent outside any session
+        self.must_live = set() # slots the history explicitly add()ed (or re-added after delete()): persistent after the flush
         self.let_go = set()    # slots the history itself expunged or removed from a collection
                                # (a pending delete-orphan member is expunged on removal, by design)
         self.created = set()   # id(obj) of objects made by the history (not loaded from rows)
@@ -823,7 +850,8 @@ def relation(rig, snap, reader, counters=None, exclude=None):
                     # history never expunged this member -- yet it is outside the session and
                     # the flush left it out (SAWarning "not in session ... will not proceed")
                     findings.append(Finding(
-                        "collection-member-dropped-from-session-not-inserted",
+                        "member-orphaned-outside-session-dropped-at-flush" if xe["slot"] in rig.orphaned_outside
+                        else "collection-member-dropped-from-session-not-inserted",
                         f"{e['cls']}{e['ident']}.{key} lists a {xe['cls']} (slot {xe['slot']}) that the session silently dropped; no row was written for it",
                         {"slot": e["slot"], "attr": key, "member_slot": xe["slot"]}))
                 elif xe["ident"] is not None:
@@ -957,6 +985,32 @@ class Interp:
         if not cond:
             raise Skip()
 
+    def pooled(self, o):
+        """Built by the history, not yet in any session."""
+        import sqlalchemy as sa
+
+        st = sa.inspect(o)
+        return st.key is None and st.session is None and id(o) in self.rig.pool
+
+    def workable(self, o):
+        return self.usable(o) or self.pooled(o)
+
+    def _pool_sync(self):
+        import sqlalchemy as sa
+
+        for o in self.rig.objs:
+            if id(o) in self.rig.pool and sa.inspect(o).session is not None:
+                self.rig.pool.discard(id(o))
+
+    def _released(self, parent, x):
+        """``x`` leaves a collection of ``parent`` by the history's own doing."""
+        slot = self.rig.track(x)
+        self.rig.must_live.discard(slot)
+        if self.pooled(parent):
+            self.rig.orphaned_outside.add(slot)
+        else:
+            self.rig.let_go.add(slot)
+
     @staticmethod
     def _conv(cls, scalars):
         kw = dict(scalars)
@@ -1013,6 +1067,50 @@ class Interp:
         self._set_slot(slot, o)
         self.s.add(o)
 
+    def op_tnew(self, cls, slot, scalars):
+        """Construct an object and keep it outside any session (graph building)."""
+        if slot is None:
+            slot = len(self.rig.objs)
+        o = self.zoo.cls[cls](**self._conv(cls, scalars))
+        self._set_slot(slot, o)
+        self.rig.pool.add(id(o))
+
+    def op_add(self, slot):
+        """Session.add() of an object built outside the session (its collections cascade)."""
+        import sqlalchemy as sa
+
+        o = self.obj(slot)
+        self.need(self.pooled(o))
+        seen, todo = set(), [o]
+        while todo:   # everything the save-update cascade will reach must be insertable
+            x = todo.pop()
+            if id(x) in seen:
+                continue
+            seen.add(id(x))
+            sp = SPEC[type(x).__name__]
+            d = sa.inspect(x).dict
+            for rel, (targets, nullable) in sp["m2o"].items():
+                self.need(nullable or d.get(rel) is not None)
+            for rel in sp["colls"]:
+                todo.extend(list(d.get(rel, ())))
+        self.s.add(o)
+        self._pool_sync()
+        self.rig.must_live.add(slot)
+
+    def op_undel(self, slot):
+        """Session.add() of an object marked with Session.delete() and not flushed yet."""
+        import sqlalchemy as sa
+
+        o = self.obj(slot)
+        st = sa.inspect(o)
+        self.need(st.persistent and st.session is self.s and o in self.s.deleted)
+        with self.s.no_autoflush:
+            for rel, (targets, nullable) in SPEC[type(o).__name__]["m2o"].items():
+                t = getattr(o, rel)
+                self.need(t is None or self.usable(t))   # its row must not point at a row being deleted
+        self.s.add(o)
+        self.rig.must_live.add(slot)
+
     def op_set(self, slot, attr, value):
         o = self.obj(slot)
         self.need(self.usable(o))
@@ -1037,7 +1135,7 @@ class Interp:
     # -- collections ----------------------------------------------------------
     def _coll(self, slot, rel):
         o = self.obj(slot)
-        self.need(self.usable(o))
+        self.need(self.workable(o))
         return o, getattr(o, rel)
 
     def _pretouch(self, parent, rel, x):
@@ -1085,33 +1183,38 @@ class Interp:
     def op_app(self, slot, rel, mslot):
         o, coll = self._coll(slot, rel)
         x = self.obj(mslot)
-        self.need(self.usable(x) and x not in coll)
+        # a graph may be built before anything is in a session: a parent outside any session
+        # takes members that are outside any session; a session parent takes both kinds
+        self.need((self.pooled(x) if self.pooled(o) else self.workable(x)) and x not in coll)
         if SPEC[type(o).__name__]["colls"][rel][1] == "o2m_uni":
             # no reverse side keeps other owners' collections in step: a member may be
-            # appended only while nobody owns it (FK attribute loaded and None, listed nowhere)
+            # appended only while nobody of that class owns it (FK attribute loaded and
+            # None, listed nowhere)
             import sqlalchemy as sa
 
-            self.need(sa.inspect(x).dict.get("nowner_id", 0) is None or sa.inspect(x).key is None)
+            fkattr = [ci["fk"] for key, kind, ci in self.zoo.info(sa.inspect(type(o))).colls if key == rel][0]
+            self.need(sa.inspect(x).dict.get(fkattr, 0) is None or sa.inspect(x).key is None)
             for y in self.rig.objs:
                 if type(y) is type(o) and y is not o and x in sa.inspect(y).dict.get(rel, ()):
                     raise Skip()
         self._node_ok(o, x)
         self._pretouch(o, rel, x)
         self._add(coll, x)
+        self._pool_sync()
 
     def op_rem(self, slot, rel, mslot):
         o, coll = self._coll(slot, rel)
         x = self.obj(mslot)
-        self.need(x in coll and self.usable(x))
+        self.need(x in coll and self.workable(x))
         coll.remove(x)
-        self.rig.let_go.add(mslot)
+        self._released(o, x)
 
     def op_repl(self, slot, rel, mslots):
         o, coll = self._coll(slot, rel)
         xs = []
         for ms in mslots:
             x = self.obj(ms)
-            if self.usable(x) and x not in xs:
+            if (self.pooled(x) if self.pooled(o) else self.workable(x)) and x not in xs:
                 try:
                     self._node_ok(o, x)
                 except Skip:
@@ -1121,18 +1224,19 @@ class Interp:
         # members that leave the collection must be usable too (no deleted objects juggling)
         for x in list(coll):
             if x not in xs:
-                self.need(self.usable(x))
+                self.need(self.workable(x))
         for x in list(coll):
             if x not in xs:
-                self.rig.let_go.add(self.rig.track(x))
+                self._released(o, x)
         setattr(o, rel, set(xs) if isinstance(coll, set) else xs)
+        self._pool_sync()
 
     def op_clr(self, slot, rel):
         o, coll = self._coll(slot, rel)
         for x in list(coll):
-            self.need(self.usable(x))
+            self.need(self.workable(x))
         for x in list(coll):
-            self.rig.let_go.add(self.rig.track(x))
+            self._released(o, x)
         if isinstance(coll, set):
             coll.clear()
         else:
@@ -1141,8 +1245,8 @@ class Interp:
     def op_pop(self, slot, rel):
         o, coll = self._coll(slot, rel)
         self.need(len(coll) > 0 and not isinstance(coll, set))
-        self.need(self.usable(coll[-1]))
-        self.rig.let_go.add(self.rig.track(coll[-1]))
+        self.need(self.workable(coll[-1]))
+        self._released(o, coll[-1])
         coll.pop()
 
     # -- delete / expunge / merge --------------------------------------------
@@ -1199,6 +1303,10 @@ class Interp:
                         return False
         return True
 
+    def _forget_deleted(self):
+        for x in self.s.deleted:
+            self.rig.must_live.discard(self.rig.track(x))
+
     def _inbound(self, o):
         """Rows that reference ``o`` through a one-directional relationship (NRef.node,
         Node.tags) are not handled by any ORM rule when ``o`` is deleted: the application
@@ -1253,6 +1361,7 @@ class Interp:
         for act in acts:
             act()
         self.s.delete(o)
+        self._forget_deleted()
 
     def op_cycdel(self, slot):
         """Delete a CycA/CycB after un-linking every object that references it."""
@@ -1276,6 +1385,7 @@ class Interp:
             for a in refs:
                 a.b = None
         self.s.delete(o)
+        self._forget_deleted()
 
     def op_exp(self, slot):
         o = self.obj(slot)
@@ -1290,6 +1400,7 @@ class Interp:
         self.need(not self.rig.dml_since(self.txn_mark) and not self.s.dirty)
         self.s.expunge(o)
         self.rig.let_go.add(slot)
+        self.rig.must_live.discard(slot)
 
     def op_readd(self, slot):
         import sqlalchemy as sa
@@ -1384,6 +1495,7 @@ class Interp:
         for k in SPEC[type(o).__name__]["scalars"]:
             kw.setdefault(k, None)
         self.s.delete(o)
+        self._forget_deleted()
         n = type(o)(**kw)
         for rel in SPEC[type(o).__name__]["m2o"]:
             setattr(n, rel, None)   # a row switch UPDATEs only what the new object sets
@@ -1421,6 +1533,7 @@ class Interp:
         self.txn_mark = self.rig.spy.mark()
 
     def op_rollback(self):
+        self.rig.must_live.clear()
         self.s.rollback()
         self.rig.sp = []
         self.rig.sync()
@@ -1440,6 +1553,7 @@ class Interp:
         self.rig.sp.pop().rollback()
 
     def op_close(self):
+        self.rig.must_live.clear()
         import sqlalchemy as sa
 
         self.s.close()
@@ -1508,6 +1622,8 @@ DEFAULT_WEIGHTS = {
     "cycdel": 2, "exp": 1, "readd": 1, "merge": 3, "rowswitch": 1, "pk": 3,
     "flush": 6, "commit": 3, "rollback": 0, "nest": 0, "spc": 0, "spr": 0, "close": 0,
     "expire": 1, "expall": 1, "refresh": 1, "get": 1, "touch": 3,
+    # graph building outside the session / re-adding a deleted object: off unless a check asks
+    "tnew": 0, "add": 0, "undel": 0,
 }
 
 
@@ -1639,10 +1755,36 @@ class Gen:
             return None
         return ["m2o", slot, rel, r.choice(cands)]
 
+    def pool(self, classes=None):
+        import sqlalchemy as sa
+
+        out = []
+        for i, o in enumerate(self.rig.objs):
+            if id(o) in self.rig.pool and sa.inspect(o).session is None and sa.inspect(o).key is None:
+                n = type(o).__name__
+                if (classes is None and n in self.classes) or (classes is not None and n in classes):
+                    out.append(i)
+        return out
+
+    def g_tnew(self):
+        cls = self.rng.choice([c for c in self.classes if not SPEC[c].get("fixed_m2o")])
+        sc = self.scalars_for(cls)
+        if SPEC[cls].get("natural"):
+            sc[SPEC[cls]["natural"]] = "%s%d" % (SPEC[cls]["natural"][0], self.uniq())
+        return ["tnew", cls, len(self.rig.objs), sc]
+
+    def g_add(self):
+        c = self.pool()
+        return ["add", self.rng.choice(c)] if c else None
+
+    def g_undel(self):
+        c = [self.rig._slot[id(o)] for o in self.s.deleted if id(o) in self.rig._slot and type(o).__name__ in self.classes]
+        return ["undel", self.rng.choice(sorted(c))] if c else None
+
     def _coll_pick(self, modes):
         r = self.rng
         c = []
-        for s in self.live():
+        for s in self.live() + self.pool():
             sp = SPEC[type(self.rig.objs[s]).__name__]
             for rel, (members, mode) in sp["colls"].items():
                 if mode in modes:
@@ -1656,7 +1798,10 @@ class Gen:
         if not p:
             return None
         s, rel, members = p
-        cands = [m for m in self.live(members) if m != s]
+        if id(self.rig.objs[s]) in self.rig.pool:
+            cands = [m for m in self.pool(members) if m != s]
+        else:
+            cands = [m for m in self.live(members) + self.pool(members) if m != s]
         if not cands:
             return None
         return ["app", s, rel, self.rng.choice(cands)]
